@@ -160,6 +160,11 @@ plan("C07", Q, [
     R("full-dbg", "cyclic", 3, 3, depth=6, faults=1),
     R("nofin-rel", "core", 2, 3, depth=14, faults=1),
     seeded(1, faults=1),
+    # a new_cyclic closure that saves a clone of its Weak and then panics, started from inside a finalizer, a destructor
+    # or a cleaning action (the phase flags of the surrounding Cc::drop / collection are set)
+    R("full-dbg", "fin", 3, 3, depth=7, w=1, fin_menu="0,19"),
+    R("full-dbg", "dtor", 3, 3, depth=7, w=1, drop_menu="0,8"),
+    R("full-dbg", "cleaner", 3, 3, depth=6, w=1, action_menu="0,10"),
 ])
 plan("C07", T, [
     R("full-dbg", "core", 2, 3, faults=1),
@@ -174,6 +179,9 @@ plan("C07", T, [
     R("full-rel", "weak", 2, 3, depth=12, faults=1, max_seconds=MID),
     R("full-rel", "cleaner", 2, 3, depth=9, faults=1, action_menu=ACT_ALL, max_seconds=MID),
     R("full-rel", "cyclic", 3, 3, depth=8, faults=1, max_seconds=MID),
+    R("full-rel", "fin", 3, 3, depth=10, w=1, fin_menu="0,1,19", max_seconds=MID),
+    R("full-rel", "dtor", 3, 3, depth=10, w=1, drop_menu="0,1,8", max_seconds=MID),
+    R("full-rel", "cleaner", 3, 3, depth=9, w=1, action_menu="0,1,10", max_seconds=MID),
     R("full-rel", "autofin", 3, 3, depth=9, faults=1, max_seconds=MID),
     R("full-dbg", "fin", 2, 3, depth=10, faults=1, fin_menu=FIN_ALL),
     seeded(2, cfg="full-rel", faults=1, max_seconds=BIG), seeded(1, cfg="nofin-rel", faults=1),
@@ -218,6 +226,8 @@ plan("C12", Q, [
     # destructor inside a finalizer that releases the last reference, a finalizer inside a cleaning action): three objects
     seeded(1, cfg="full-rel", seed_family="g3b", fin_menu="0,10,11", drop_menu="0,3,4"),
     nested(1, cfg="full-rel", fin_menu="0,4,10,11", drop_menu="0,3,4"),
+    # allocation-triggered collection through the *buffered-objects* threshold, from finalizers and destructors
+    R("full-dbg", "dynauto", 7, 4, depth=2, seed_family="ga", fresh=0),
     R("full-rel", "fin", 3, 3, depth=8, fin_menu="0,10,11"),
     R("full-rel", "dtor", 3, 3, depth=9, fin_menu="0,4", drop_menu="0,3,4"),
     R("full-rel", "cleaner", 3, 3, depth=8, action_menu="0,1", fin_menu="0,11"),
@@ -229,6 +239,7 @@ plan("C12", T, [
     R("full-dbg", "fin", 2, 2, fin_menu=FIN_PHASE, max_seconds=MID), R("full-dbg", "dtor", 2, 2, drop_menu=DROP_PHASE, max_seconds=MID),
     seeded(2, cfg="full-rel", seed_family="g3b", fin_menu="0,10,11,14", drop_menu="0,3,4,5", max_seconds=MID),
     nested(2, cfg="full-rel", fin_menu="0,4,10,11", drop_menu="0,3,4", max_seconds=MID),
+    R("full-rel", "dynauto", 7, 4, depth=4, seed_family="ga", fresh=0, max_seconds=MID),
     R("full-rel", "fin", 3, 3, depth=10, fin_menu="0,10,11", max_seconds=MID),
     R("full-rel", "dtor", 3, 3, depth=11, fin_menu="0,4", drop_menu="0,3,4", max_seconds=MID),
     R("full-rel", "cleaner", 3, 3, depth=10, action_menu="0,1", fin_menu="0,11", max_seconds=MID),
@@ -239,7 +250,8 @@ plan("C13", Q, weak_q + cyclic_q + [R("min-dbg", "weak", 2, 3, depth=13)])
 plan("C13", T, weak_t + cyclic_t + [R("min-dbg", "weak", 2, 3, depth=16, max_seconds=MID)])
 
 # ---- C14 new_cyclic ---------------------------------------------------------------------------------------------------------
-plan("C14", Q, cyclic_q + [R("full-dbg", "cyclic", 3, 3, depth=6, faults=1), R("full-rel", "cyclic", 2, 3, depth=8), R("full-dbg", "fin", 3, 3, depth=9, fin_menu="0,17")])
+plan("C14", Q, cyclic_q + [R("full-dbg", "cyclic", 3, 3, depth=6, faults=1), R("full-rel", "cyclic", 2, 3, depth=8), R("full-dbg", "fin", 3, 3, depth=9, fin_menu="0,17"),
+                 R("full-dbg", "fin", 3, 3, depth=7, w=1, fin_menu="0,19"), R("full-dbg", "dtor", 3, 3, depth=7, w=1, drop_menu="0,8")])
 plan("C14", T, cyclic_t + [R("full-rel", "fin", 3, 3, depth=12, fin_menu="0,1,17", max_seconds=MID), R("full-rel", "cyclic", 3, 3, depth=8, faults=1, max_seconds=MID), R("nofin-rel", "cyclic", 3, 3, depth=8, faults=1, max_seconds=MID)])
 
 # ---- C16 saturation -----------------------------------------------------------------------------------------------------------
